@@ -1105,15 +1105,17 @@ class MoneyConverter:
             raise ValueError(f"Not a valid period: {validity}.")
         # check type of validity
         type_of_validity = self._type_of_validity
-        if type_of_validity is None:
-            self._type_of_validity = type(validity)
-        elif type_of_validity is not type(validity):
+        if type_of_validity is not None and \
+                type_of_validity is not type(validity):
             raise ValueError('Different types of validity periods given.')
-        # update internal dict
+        # create all exchange rates before changing anything, so that an
+        # invalid rate spec does not result in a partial update
         base_currency = self._base_currency
-        rates = (ExchangeRate(base_currency, unit_multiple, term_currency,
+        rates = [ExchangeRate(base_currency, unit_multiple, term_currency,
                               term_amount)
-                 for term_currency, term_amount, unit_multiple in rate_specs)
+                 for term_currency, term_amount, unit_multiple in rate_specs]
+        # update internal dict
+        self._type_of_validity = type(validity)
         # term currencies may be given as ISO codes, so use the currency
         # held by the exchange rate as key
         it = (((validity, rate.term_currency), rate) for rate in rates)
